@@ -122,7 +122,12 @@ def gen_cases(tier, seed):
             args = args[:-3] + ["@SRC%d@" % k for k in order] + ["dst"]
             if not any(e["p"] == "dst" for e in pre):
                 pre.insert(0, {"p": "dst", "k": "d"})
-        yield {"mixed": mixed, "xdev": mixed is None and r.random() < 0.15, "fs": "tmpfs" if r.random() < 0.3 else "ext4", "spec": [{"p": "src", "k": "d"}] + files, "pre": pre,
+        # now and then some of the files have a second name deeper in the tree (hard links): every name is a file to be copied
+        r2 = random.Random(seed * 101 + i)
+        extra_names = []
+        if not single and mixed is None and r2.random() < 0.25:
+            extra_names = [{"p": "src/more", "k": "d"}] + [{"p": "src/more/also-%d" % k, "k": "hard", "target": f["p"]} for k, f in enumerate(files) if r2.random() < 0.7 or k == 0]
+        yield {"mixed": mixed, "xdev": mixed is None and r.random() < 0.15, "fs": "tmpfs" if r.random() < 0.3 else "ext4", "spec": [{"p": "src", "k": "d"}] + files + extra_names, "pre": pre,
                "args": args, "single": single, "prior": prior, "driver": driver, "block": bname, "bsv": bsv,
                "workers": workers, "sched": r.choice(["os", "os", "pct", "jitter"]), "sseed": r.randrange(1 << 30)}
     for i in range(4 if tier == "quick" else 24):
@@ -279,6 +284,10 @@ def run_case(case):
             sig = "%s:block=%s:%s:%s" % (case["driver"], case["block"], "big" if case.get("big") else "xdev" if case.get("xdev") else "mixed-fs" if case.get("mixed") is not None else "std", frag)
             res["viol"].append({"sig": sig, "what": "exit 0 but " + msg + extra + " ; args=" + " ".join(case["args"])})
         specs = {e["p"]: e for e in case["spec"] if e["k"] == "f"}
+        for e in case["spec"]:
+            if e["k"] == "hard":
+                specs[e["p"]] = specs[e["target"]]      # (a second name of the same file)
+                res["counters"]["files-with-a-second-name"] = res["counters"].get("files-with-a-second-name", 0) + 1
         keys = set()
         for m in files:
             e = specs[m["src"]]
